@@ -28,6 +28,7 @@ POOL = ['IF', 'THEN', 'ELSE', 'ELSEIF', 'END', 'FOR', 'TO', 'STEP', 'NEXT', 'WHI
         'RANDOMIZE', 'KILL', 'DECLARE', 'DEFINT', 'DEFSTR', 'REM', 'LEN', 'MID$', 'LEFT$', 'STR$', 'VAL', 'ABS', 'INT',
         'CHR$', 'ASC', 'UBOUND', 'LBOUND', 'RND', 'TIMER', 'INKEY$', 'ERR', 'STRING$', 'SPACE$', 'INSTR',
         '+', '-', '*', '/', '\\', '^', '=', '<', '>', '<>', '<=', '>=', '(', ')', ',', ';', ':', '.', "'", '"', '"abc"',
+        '"\u20ac"', '"\u0416x"', '\u2028', '\x0c', '"a\x0cb"', '\u00e9', '"\u00e9"', '\u00a0',
         '0', '1', '-1', '2', '32767', '32768', '2147483648', '1.5', '1E+38', '1E+39', '1D+308', '1D+309', '&HFF',
         '&HFFFFFFFFF', '1%', '32768%', '1&', '1!', '1#', '1$', 'x', 'x%', 'x$', 'y&', 'a.b', 'x(1)', 'x()', '\n', ' ']
 
@@ -100,6 +101,8 @@ STMT_FORMS = [
     'SUB x : END SUB', 'SUB s2 : DATA 1 : END SUB', 'SUB s2 : TYPE t2 : a AS LONG : END TYPE : END SUB', 'SUB s2 : DIM SHARED q : END SUB',
     'SUB s2 : SHARED x : END SUB', 'SUB s2 : STATIC q : q = q + 1 : END SUB', 'SUB s2 : lbl: : END SUB', 'SUB s2 : GOTO lbl : END SUB',
     'SUB s2 (n%) : FOR n% = 1 TO 2 : NEXT : END SUB', 'SUB s2 (rr AS tt) : PRINT rr.a : END SUB : s2 r',
+    'PRINT "\u20ac"', 'DATA \u20ac, 1', 'x$ = "\u0416"', 'PRINT "a" \' \u20ac', 'REM \u2028 x', 'INPUT "\u20ac"; x', 'PLAY "\u266b"', 'KILL "\u20ac"',
+    'DATA "a\x0cb", \x0b', 'PRINT "\x00"', 'zl\u00e9: PRINT 1', 'x\u00e9 = 1', '\u00a0PRINT 1', 'PRINT\u00a01',
     'OPEN "f" FOR INPUT AS #1', 'CLOSE', 'LINE (1,1)-(2,2)', 'PSET (1, 1)', 'CIRCLE (1,1), 5', 'LINE INPUT x$', 'WRITE 1',
     'LPRINT 1', 'GET #1', 'PUT #1', 'ON x GOSUB 10', 'ON x GOTO 10', 'DEF FNa(x) = x', 'CLEAR', 'RUN', 'CHAIN "x"', 'SLEEP', 'SLEEP 1',
     'TRON', 'KEY OFF', 'PALETTE', 'PCOPY 1, 2', 'SHELL', 'NAME "a" AS "b"', 'MID$(x$, 1) = "a"', 'LSET x$ = "a"', 'x = ERL',
